@@ -149,8 +149,8 @@ def scenarios(ctx, cfg, init, limit):
 def run(ctx):
     # (a) design level.  The two Gen configurations carry every invariant / action property, so the graph
     # dump IS the exhaustive check of that scope.
-    rows = scenarios(ctx, "StreamQuotaMC.cfg", 1, ctx.pick(700, None))
-    rows += scenarios(ctx, "StreamQuotaMC4.cfg", 2, ctx.pick(900, None))
+    rows = scenarios(ctx, "StreamQuotaMC.cfg", 1, ctx.pick(700, 4000))
+    rows += scenarios(ctx, "StreamQuotaMC4.cfg", 2, ctx.pick(900, 6000))
     ctx.neg("StreamQuota", "StreamQuotaNeg1.cfg", expect="I_NoIdleWaiter", workers=4)
     if not ctx.quick():
         ctx.mc("StreamQuota", "StreamQuotaLive.cfg", workers=8)
